@@ -208,6 +208,73 @@ pub fn run(ctx: &Ctx) {
     // maps are deliberately outside the bound (DESIGN 4b.3): totality only
     sweep!(BTreeMap<String, u32>, "BTreeMap<String,u32>", 0, |_, _, _, _| Ok(()));
     sweep!(std::collections::HashMap<u16, Vec<u8>>, "HashMap<u16,Vec<u8>>", 0, |_, _, _, _| Ok(()));
+    // the same allocation bound through the CRC-checked decoders (size hints pass through the modifier)
+    macro_rules! sweep_crc {
+        ($t:ty, $name:expr, $bound_per_byte:expr) => {{
+            xs.par_iter().enumerate().for_each(|(i, x)| {
+                for algo in [crate::framing::CrcAlgo::C8A, crate::framing::CrcAlgo::C32C, crate::framing::CrcAlgo::C128A] {
+                    evals.fetch_add(1, Ordering::Relaxed);
+                    let (r, stats) = with_arena(x.len() + 16, |a| {
+                        let inp: &[u8] = a.place(x, true);
+                        count_allocs(256 << 20, || trap(|| crate::framing::crc_take::<$t>(algo, inp).map(|_| ())))
+                    });
+                    let case = || json!({"type": $name, "entry": format!("take_from_bytes_crc ({})", algo.params().name), "input": hex(x)});
+                    if let Err(p) = r {
+                        ctx.violation(&format!("typed-panic:crc:{}", $name), format!("panicked: {p}"), i as u64, case());
+                    }
+                    let bound: u64 = $bound_per_byte * (x.len() as u64 + 8);
+                    if stats.requested > bound {
+                        ctx.violation(&format!("typed-alloc:crc:{}", $name), format!("{} bytes requested for a {}-byte input (bound {})", stats.requested, x.len(), bound), i as u64, case());
+                    }
+                }
+            });
+        }};
+    }
+    sweep_crc!(Vec<u64>, "Vec<u64>", 64);
+    sweep_crc!(String, "String", 16);
+    sweep_crc!(Vec<Vec<u8>>, "Vec<Vec<u8>>", 256);
+    // reader-based decoding of untrusted bytes: never writes outside the scratch buffer (flush against
+    // a guard page), never panics, allocation bounded in terms of input + scratch
+    macro_rules! sweep_io {
+        ($t:ty, $name:expr, $bound_per_byte:expr) => {{
+            xs.par_iter().enumerate().for_each(|(i, x)| {
+                for scratch_len in [0usize, 3, 16] {
+                    for eio in [false, true] {
+                        evals.fetch_add(1, Ordering::Relaxed);
+                        let (r, stats) = with_arena(64, |a| {
+                            let mut cs = Vec::with_capacity(96);
+                            let _ = serde_json::to_writer(&mut cs, &json!({"type": $name, "entry": if eio { "from_eio" } else { "from_io" }, "input": hex(x), "scratch_len": scratch_len}));
+                            set_case(&cs);
+                            let scratch = a.flush_end(scratch_len);
+                            count_allocs(256 << 20, || {
+                                trap(|| {
+                                    if eio {
+                                        postcard::from_eio::<$t, _>((crate::checks::c01::EioSlice(&x[..]), scratch)).map(|_| ())
+                                    } else {
+                                        postcard::from_io::<$t, _>((&x[..], scratch)).map(|_| ())
+                                    }
+                                })
+                            })
+                        });
+                        let case = || json!({"type": $name, "entry": if eio { "from_eio" } else { "from_io" }, "input": hex(x), "scratch_len": scratch_len});
+                        if let Err(p) = r {
+                            ctx.violation(&format!("typed-panic:io:{}", $name), format!("panicked: {p}"), i as u64, case());
+                        }
+                        let bound: u64 = $bound_per_byte * (x.len() as u64 + scratch_len as u64 + 8);
+                        if stats.requested > bound {
+                            ctx.violation(&format!("typed-alloc:io:{}", $name), format!("{} bytes requested for a {}-byte input and {}-byte scratch (bound {})", stats.requested, x.len(), scratch_len, bound), i as u64, case());
+                        }
+                    }
+                }
+            });
+        }};
+    }
+    sweep_io!(&str, "&str", 16);
+    sweep_io!(&[u8], "&[u8]", 16);
+    sweep_io!(Borrowed, "struct{&str,u16,&[u8],&str}", 16);
+    sweep_io!(String, "String", 32);
+    sweep_io!(Vec<u64>, "Vec<u64>", 64);
+    sweep_io!(Vec<String>, "Vec<String>", 256);
     // requests the format cannot serve are refused with an error
     macro_rules! refuse {
         ($t:ty, $name:expr) => {{
